@@ -47,6 +47,41 @@ def build(key, variant, i):
         return {'env': env, 'old_env': dict(env), 'call': lambda: run(lambda: inc(me, usage, code))}
     if qual.endswith('reset_error_counter'):
         return {'env': env, 'old_env': dict(env), 'call': lambda: run(lambda: rst(me, usage, code))}
+    if qual.endswith('check_for_synthetic_manifest_error'):
+        import datetime
+        EPOCH = datetime.datetime(1970, 1, 1, tzinfo=datetime.timezone.utc)
+        g = lambda k: int(i[k])
+        us = datetime.timedelta(microseconds=1)
+        ast_ = EPOCH + (86400 * 10**6 * g('ast_day') + 10**6 * g('ast_sec') + g('ast_usec')) * us
+        pos_t = EPOCH + (86400 * 10**6 * g('pos_day') + 10**6 * g('pos_sec') + g('pos_usec')) * us
+        now = EPOCH + g('now_us') * us
+        mchk = extract_method('dashlive/server/requesthandler/manifest_requests.py', 'ServeManifest',
+                              'check_for_synthetic_manifest_error', {'flask': flask, 'datetime': datetime,
+                                                                     'OptionsContainer': object, 'ManifestTemplateContext': object})
+        usage = 'manifest'
+        skey = f'error-{usage}-{code:06d}'
+        options = NS(manifestErrors=[(code, g('pos') if variant == 'number' else pos_t)],
+                     updateCount=None if i['uc_none'] else g('update_count'), availabilityStartTime=ast_,
+                     minimumUpdatePeriod=g('mup'), failureCount=None if i['fc_none'] else g('fc'))
+        env.update({k: g(k) for k in ('ast_day', 'ast_sec', 'ast_usec', 'pos_day', 'pos_sec', 'pos_usec', 'now_us', 'mup', 'update_count')})
+        env['uc_none'] = bool(i['uc_none'])
+        env['__facts__'] = 0 <= g('ast_sec') < 86400 and 0 <= g('ast_usec') < 10**6 and 0 <= g('pos_sec') < 86400 and 0 <= g('pos_usec') < 10**6
+
+        def run_m(f):
+            with app.test_request_context('/x'):
+                if not absent:
+                    flask.session[skey] = None if stored_none else stored
+                before = dict(flask.session)
+                r = f()
+                sess.absent = skey not in flask.session
+                sess.value = flask.session.get(skey)
+                sess.writes = 0 if dict(flask.session) == before else 1
+                return r
+
+        def call_m():
+            r = run_m(lambda: mchk(me, options, {'mpd': NS(now=now)}))
+            return None if r is None else NS(status=r.status_code)
+        return {'env': env, 'old_env': dict(env), 'call': call_m}
     chk = extract_method(MRQ, 'MediaRequestBase', 'check_for_synthetic_http_error', {'flask': flask, 'OptionsContainer': object})
     lists = {'audioErrors': [], 'videoErrors': [], 'textErrors': []}
     lists[{'video': 'videoErrors', 'audio': 'audioErrors', 'text': 'textErrors'}[variant]] = [(code, int(i['pos']))]
